@@ -347,6 +347,9 @@ type CLI struct {
 	NL string
 	// RawOut, when set, makes Handle's output be emitted through EmitRich (atoms for ESC sequences).
 	Return byte
+	// IgnoreCR drops carriage returns typed by the client (a client configured with "\r\n" as its
+	// return sequence).
+	IgnoreCR bool
 }
 
 // NewCLI builds a CLI device.
@@ -371,6 +374,9 @@ func (c *CLI) EmitRich(s string) {
 
 func (c *CLI) onWrite(b []byte) {
 	for _, ch := range b {
+		if c.IgnoreCR && ch == '\r' {
+			continue
+		}
 		if ch == c.Return {
 			line := string(c.line)
 			c.line = nil
